@@ -202,6 +202,24 @@ impl Prop for C06 {
     }
 
     fn check(case: &Case, ctx: &mut Ctx) -> Result<(), Fail> {
+        /// what is *encoded* carries an arbitrary alpha channel: an SGR sequence cannot express it,
+        /// and what is read back is the same colour, opaque
+        use surf_n_term::RGBA;
+        fn translucent(c: RGBA) -> RGBA {
+            use surf_n_term::Color;
+            let [r, g, b] = c.to_rgb();
+            let alpha = [255u8, 255, 0, 1, 128, 254][(r as usize + 5 * g as usize + 11 * b as usize) % 6];
+            RGBA::new(r, g, b, alpha)
+        }
+        fn translucent_modify(mut m: FaceModify) -> FaceModify {
+            m.fg = m.fg.map(translucent);
+            m.bg = m.bg.map(translucent);
+            m.underline_color = m.underline_color.map(translucent);
+            m
+        }
+        fn translucent_face(f: Face) -> Face {
+            Face::new(f.fg.map(translucent), f.bg.map(translucent), f.attrs)
+        }
         /// a writer that takes nothing
         struct Refuse;
         impl std::io::Write for Refuse {
@@ -243,7 +261,7 @@ impl Prop for C06 {
                     match cmd {
                         Cmd::Modify(m) => {
                             encoder
-                                .encode(&mut bytes, TerminalCommand::FaceModify(face_modify(m)))
+                                .encode(&mut bytes, TerminalCommand::FaceModify(translucent_modify(face_modify(m))))
                                 .map_err(|e| Fail::new("encode-error", format!("{e:?}")))?;
                             if !is_empty_record(m) {
                                 want.push(Want::Modify(m.clone()));
@@ -252,7 +270,7 @@ impl Prop for C06 {
                         }
                         Cmd::Face(f) => {
                             encoder
-                                .encode(&mut bytes, TerminalCommand::Face(f.to_face()))
+                                .encode(&mut bytes, TerminalCommand::Face(translucent_face(f.to_face())))
                                 .map_err(|e| Fail::new("encode-error", format!("{e:?}")))?;
                             want.push(Want::Face(f.clone()));
                             ctx.feat("roundtrip.face");
